@@ -74,7 +74,10 @@ pub fn run_cup(p: &Profile, cfg: &RunCfg) -> (RunOut, MonOut) {
             let nhist = w.draws.draw("setup/key.nhist", 5) as usize;
             let mut hist = vec![];
             for h in 0..nhist {
-                hist.push((latest_id.wrapping_add(1000 + h as u64), (latest_key + 1 + h) % (nk - 1)));
+                // ids on either side of the latest id, in no particular order
+                let below = w.draws.draw(&format!("setup/key.hist#{h}/below"), 2) == 1;
+                let id = if below { latest_id.wrapping_sub(1000 + h as u64) } else { latest_id.wrapping_add(1000 + h as u64) };
+                hist.push((id, (latest_key + 1 + h) % (nk - 1)));
             }
             let mut reg = vec![(latest_id, keys()[latest_key].verifying_key())];
             for (id, k) in &hist {
@@ -159,7 +162,7 @@ pub fn run_cup(p: &Profile, cfg: &RunCfg) -> (RunOut, MonOut) {
         for e in 0..n {
             let key = format!("x#{e}");
             let mut w = lock(&world);
-            let mutation = w.draws.draw(&format!("{key}/mut"), 24);
+            let mutation = w.draws.draw(&format!("{key}/mut"), 26);
             // a handler is stateful in principle: sometimes the authentic exchange is verified
             // first and the tampered one right after it on the same handler
             let authentic_first = mutation != 0 && w.draws.draw(&format!("{key}/authentic_first"), 3) == 0;
@@ -347,6 +350,23 @@ pub fn run_cup(p: &Profile, cfg: &RunCfg) -> (RunOut, MonOut) {
                 21 => {
                     body.extend_from_slice(b" ");
                     "body_extended".into()
+                }
+                24 | 25 => {
+                    // the signature half made longer with further hex digits (after or before the
+                    // DER bytes); the request-hash half stays authentic, so the verifier gets as far
+                    // as decoding the signature
+                    if let (Some(t), Some(c)) = (etag.as_mut(), colon) {
+                        let k = [1usize, 2, 3, 8, 40, 200][w.draws.draw(&format!("{key}/pad"), 6) as usize];
+                        let pad: Vec<u8> = std::iter::repeat(*b"00").take(k).flatten().collect();
+                        if mutation == 24 {
+                            t.splice(c..c, pad);
+                        } else {
+                            let start = if t.starts_with(b"W/\"") { 3 } else if t.starts_with(b"\"") { 1 } else { 0 };
+                            t.splice(start..start, pad);
+                        }
+                    }
+                    breaking = None;
+                    if mutation == 24 { "signature_padded".into() } else { "signature_prefixed".into() }
                 }
                 _ => {
                     // a further ':'-separated field appended to an authentic ETag (inside the wrapper)
